@@ -4,6 +4,7 @@ import (
 	"fmt"
 	"os"
 	"path/filepath"
+	"strings"
 	"time"
 
 	"verifharness/hx"
@@ -52,6 +53,7 @@ type ChainParams struct {
 	CoverForks    [5]bool
 	CommitteeDrop bool // exact genesis active count on a committee-count threshold; slashings at slot 1 drop it inside phase0
 	Phase0Leak    bool // long phase0 with a leak and wrong-target votes (needs ForkBias phase0long)
+	LowBalances   bool // small registry (33-36 validators, sync committee of 32) whose balances are cut by a phase0 leak (needs Phase0Leak)
 	DepositFork   bool // side branch sharing the pubkey cache registers another key at the next validator index first
 	ZeroHashMerge int  // 1 = the merge block carries block_hash 0, 0 = random per chain, -1 = never
 	// Retry: regenerate with another sub-seed (at most 6 times) until this counter is non-zero
@@ -86,7 +88,11 @@ func Generate(pr ChainParams) ChainResult {
 		if res.Stats != nil {
 			res.Stats.C["generation_attempts"] = attempt + 1
 		}
-		if res.Err == nil && res.Stats != nil && res.Stats.Get(pr.RetryUntil) > 0 {
+		ok := res.Err == nil && res.Stats != nil
+		for _, k := range strings.Split(pr.RetryUntil, ",") {
+			ok = ok && res.Stats.Get(k) > 0
+		}
+		if ok {
 			break
 		}
 	}
@@ -128,6 +134,7 @@ func generateOnce(pr ChainParams) (res ChainResult) {
 	}
 	knobs.CommitteeDrop = knobs.CommitteeDrop || pr.CommitteeDrop
 	knobs.Phase0Leak = knobs.Phase0Leak || pr.Phase0Leak
+	knobs.LowBalances = knobs.LowBalances || pr.LowBalances
 	sp := TinySpec(r.Fork(), knobs)
 	if err := CheckSpec(sp); err != nil {
 		res.Err = err
@@ -145,6 +152,7 @@ func generateOnce(pr ChainParams) (res ChainResult) {
 	c.OpRate = sc.Rates
 	c.CoverForks = pr.CoverForks
 	c.Phase0LeakMix = pr.Phase0Leak
+	c.LowBalances = pr.LowBalances && !pr.Plain
 	c.CommitteeDropChain = pr.CommitteeDrop && !pr.Plain
 	c.ZeroHashMerge = pr.ZeroHashMerge > 0 || pr.ZeroHashMerge == 0 && c.Rng.Chance(35)
 	res.Stats = c.Stats
@@ -158,6 +166,9 @@ func generateOnce(pr ChainParams) (res ChainResult) {
 		if gk.MaxVals < 64 {
 			gk.MaxVals = 64
 		}
+	}
+	if pr.LowBalances && !pr.Plain {
+		gk = GenesisKnobs{MinVals: 33, MaxVals: 36, AllMax: true, Eth1Share: 30}
 	}
 	if pr.CommitteeDrop && !pr.Plain {
 		// active count exactly k * SLOTS_PER_EPOCH * TARGET_COMMITTEE_SIZE (k committees per slot, 2 <= k <= 4), at least 48
